@@ -111,3 +111,8 @@ pub use filter::unit::verif_hooks_rotorib as verif_filter_unit;
 /// ReconfUnits).
 #[cfg(feature = "verif-hooks")]
 pub use filter::unit::verif_hooks_reconfunits as verif_filter_reconfunits;
+
+/// Verification hooks (feature `verif-hooks`, add-only): the `filter` unit's
+/// runner with its real metrics source (area UnitMetrics).
+#[cfg(feature = "verif-hooks")]
+pub use filter::unit::verif_hooks_unitmetrics as verif_filter_unitmetrics;
